@@ -794,6 +794,25 @@ func finalKeepaliveDead(w *World, x *vrt.Exec) {
 			continue
 		}
 		w.reached["detected:"+e.Name+":"+class] = true
+		// An endpoint that gave up while its own sending direction still
+		// worked has told the peer (Close sends a FIN): the peer's end
+		// closes as well instead of hanging.
+		peer := w.S
+		if e == w.S {
+			peer = w.C
+		}
+		e.out.mu.Lock()
+		outDead := e.out.blackhole
+		e.out.mu.Unlock()
+		if !outDead && (peer.closedAt < 0 || peer.closedAt > e.closedAt+2*time.Second) {
+			w.fail("keepalive/peer-not-told/"+e.Name,
+				"%s gave up at %v (nothing heard from the peer since %v) while its own sending direction still worked, but the peer was not told: its end closed at %v (-1ns = never)",
+				e.Name, e.closedAt, w.blackholeAt, peer.closedAt)
+			continue
+		}
+		if !outDead {
+			w.reached["peer-told:"+e.Name] = true
+		}
 		// its calls fail too
 		for _, c := range e.Calls {
 			if (c.Kind == "send" || c.Kind == "recv") && !c.Returned {
